@@ -21,7 +21,7 @@ print('| seeded change | round | what it is and what it needs (summary of the au
 print('|---|---|---|---|---|---|---|')
 def fmt(ch):
     return '; '.join('%s -> %s %s' % (p, v['rc'], ' '.join('`%s`' % x for x in str(v.get('signatures', '')).split(',')[:2] if x)) for p, v in ch.items())
-tot = {k: [0, 0, 0, 0] for k in (1, 2, 3, 4, 5, 6)}
+tot = {k: [0, 0, 0, 0] for k in (1, 2, 3, 4, 5, 6, 7)}
 for d in sorted(glob.glob(V + '/seeded/*')):
     m = json.load(open(d + '/meta.json'))
     rnd = m.get('round', 1)
@@ -34,7 +34,7 @@ for d in sorted(glob.glob(V + '/seeded/*')):
     t_ok = (not l_ok) and any(v.get('rc') == 1 for v in th.values())
     tot[rnd][0] += 1; tot[rnd][1] += int(f_ok); tot[rnd][2] += int(l_ok); tot[rnd][3] += int(t_ok)
     print('| %s | %d | %s | %s/%s | %s | %s | %s |' % (m['id'], rnd, m.get('summary', ''), m['demo_rc_clean_tree'], m['demo_rc_patched_tree'],
-          '58/58' if '58/58' in m['baseline_with_patch'] else m['baseline_with_patch'][:40], fmt(first), ('same' if first is final or m.get('first_run_checks') is None else fmt(final)) + ((' ; thorough tier: ' + fmt(th)) if th else '')))
+          '58/58' if '58/58' in m['baseline_with_patch'] else m['baseline_with_patch'][:40], fmt(first), ('same' if first is final or m.get('first_run_checks') is None or first == final else fmt(final)) + ((' ; thorough tier: ' + fmt(th)) if th else '')))
 print()
 for r in sorted(k for k in tot if tot[k][0]):
     print('round %d: %d changes, %d reported by the own-property quick check at first run, %d reported by some quick check now%s' % (r, tot[r][0], tot[r][1], tot[r][2], (' (+%d by the thorough tier only)' % tot[r][3]) if tot[r][3] else ''))
